@@ -68,3 +68,37 @@ theorem g1_repaired_exact : exact g1 (history step g1 200 [0]) = true ∧ (histo
 theorem g1_repaired_exact' : exact g1 (history step g1 200 [4, 0]) = true := by decide +kernel
 
 end Api.Rec
+
+/-! ## what a wrong `False` costs: the consumer of the answers
+
+`RecursiveConversionsVisitor.visit`: a type answered `True` gets a placeholder in the visitor's own cache while its children are compiled (a second
+visit returns the placeholder); a type answered `False` is compiled by a *fresh* visitor (`visit_not_recursive` → the method factory), whose cache is
+empty.  `compileDepth` is the depth of that recursion under a bound (`none`: the bound was exceeded — Python's `RecursionError`).  It is an abstraction from above:
+the real visitor compiles the *first* non-recursive type of a scope in place (`_first_visit`, restored at the end of each object field by
+`context_setter`), which keeps more placeholders alive; the model gives every non-recursive type a fresh visitor.  So the model may exceed the bound where
+the code returns (observed on the tree before the repair of row 96: 8 of 120 generated graphs), and the correspondence compares one direction only:
+whenever the model returns, the code returns. -/
+namespace Api.Rec
+
+/-- the deepest of the visits of the children, `none` as soon as one of them exceeds the bound (the later ones are not visited: the exception propagates) -/
+def deepest (f : Node → Option Nat) : List Node → Option Nat
+  | [] => some 0
+  | x :: xs => match f x with
+    | none => none
+    | some a => (deepest f xs).map (Nat.max a)
+
+def compileDepth (g : Graph) (memo : Cache) : Nat → List Node → Node → Option Nat
+  | 0, _, _ => none
+  | fuel + 1, vc, n =>
+    if memo.get? n == some true then
+      if vc.contains n then some 0                                  -- the placeholder of the visit in progress
+      else (deepest (compileDepth g memo fuel (n :: vc)) (children g n)).map (· + 1)
+    else (deepest (compileDepth g memo fuel []) (children g n)).map (· + 1)   -- a fresh visitor
+
+/-- row 96 in the model: with the memo left by the former exit (`Q` answered `False` on a cycle) compiling `HP` exceeds any reasonable bound
+    (here 60 nested visits for five classes), with the repaired memo the recursion is four deep (evaluations on the example graph) -/
+theorem wrong_false_overflows :
+    compileDepth g1 (history stepEarly g1 200 [0]) 60 [] 0 = none ∧ compileDepth g1 (history step g1 200 [0]) 60 [] 0 = some 4 := by
+  decide +kernel
+
+end Api.Rec
